@@ -228,8 +228,21 @@ pub fn run_spline_job_t<T: Fl>(job: &SplineJob, want: Want, out: &mut JobOut) {
         let r2 = catch(|| build_spline::<T, _>(&xt, d2, &spec_impl, false).map(|ip| ip.interp_array(&qarr)));
         crate::subj::set_axis_reversed_in_memory(false);
         out.transitions += 1;
+        // (within rounding only: bit-identity across layouts is C13's statement, not this one's)
         let same = match &r2 {
-            Ok(Ok(Ok(r2))) => r2.iter().zip(res.iter()).all(|(a, b)| crate::fl::same_bits(*a, *b)),
+            Ok(Ok(Ok(r2))) => {
+                let mut ok = true;
+                for (j, lane) in lanes.iter().enumerate() {
+                    let sc = lane.y.iter().fold(0.0f64, |m, v| m.max(v.abs())) * axis.mesh_ratio.max(1.0);
+                    for qi in 0..qt.len() {
+                        let (a, b) = (r2[[qi, j]].to_f64(), res[[qi, j]].to_f64());
+                        if !((a - b).abs() <= 4.0 * k * eps * sc.max(b.abs())) && !(a.is_nan() && b.is_nan()) {
+                            ok = false;
+                        }
+                    }
+                }
+                ok
+            }
             _ => false,
         };
         if !same {
